@@ -143,6 +143,8 @@ func Property() runner.Property {
 				{"watch-close@1", ctl.Cfg{WatchFaults: map[int]fakeapi.WatchFault{1: W("close", 1)}}},
 				{"watch-errorframe@0", ctl.Cfg{WatchFaults: map[int]fakeapi.WatchFault{1: W("errorframe", 0)}}},
 				{"watch-garbage@1", ctl.Cfg{WatchFaults: map[int]fakeapi.WatchFault{1: W("garbage", 1)}}},
+				{"watch-errorframe-obj@0", ctl.Cfg{WatchFaults: map[int]fakeapi.WatchFault{1: W("errorframe-obj", 0)}}},
+				{"watch-errorframe-nil@1", ctl.Cfg{WatchFaults: map[int]fakeapi.WatchFault{1: W("errorframe-nil", 1)}}},
 				{"watch-status@0", ctl.Cfg{WatchFaults: map[int]fakeapi.WatchFault{1: W("status", 0)}}},
 			} {
 				c := wf.c
